@@ -45,11 +45,34 @@ type fnGen struct {
 	recvName string
 	viaName  string        // the explicit parameter that stands for the receiver's --via field
 	viaType  string        // its Coq type
-	deferred *ast.CallExpr // the single deferred call of the function (runs before every return)
+	deferred []*ast.CallExpr // the deferred calls registered so far (run last-in first-out before every return)
+	rename   map[types.Object]string // variables whose declaration hides another variable of the function: their Coq names
 	strOK    bool          // inside a discarded argument: string constants are accepted
 }
 
 func (g *fnGen) failf(n ast.Node, format string, a ...any) { g.t.failf(n, format, a...) }
+
+// idName / varName: the Coq name of a Go variable (renamed when its declaration
+// hides another variable of the function)
+func (g *fnGen) idName(id *ast.Ident) string {
+	if g.rename != nil {
+		if o := g.info.ObjectOf(id); o != nil {
+			if r, ok := g.rename[o]; ok {
+				return r
+			}
+		}
+	}
+	return coqIdent(id.Name)
+}
+
+func (g *fnGen) varName(v *types.Var) string {
+	if g.rename != nil {
+		if r, ok := g.rename[v]; ok {
+			return r
+		}
+	}
+	return coqIdent(v.Name())
+}
 
 func (g *fnGen) fresh() string {
 	g.tmp++
@@ -256,7 +279,13 @@ func (g *fnGen) shadowCheck() {
 		for s := v.Parent().Parent(); s != nil; s = s.Parent() {
 			if o := s.Lookup(v.Name()); o != nil {
 				if _, isVar := o.(*types.Var); isVar {
-					g.failf(id, "declaration of %s hides a variable of an enclosing block", v.Name())
+					// the declaration hides a variable of an enclosing block: it gets a name of its own
+					if g.rename == nil {
+						g.rename = map[types.Object]string{}
+					}
+					if _, done := g.rename[v]; !done {
+						g.rename[v] = fmt.Sprintf("%s__%d", coqIdent(v.Name()), len(g.rename)+1)
+					}
 				}
 			}
 			if s == fscope {
@@ -311,23 +340,55 @@ func (g *fnGen) viaRecv(ty types.Type) string {
 }
 
 // viaOfCallee: the argument passed for the via parameter of the callee c (a
-// method of a struct with a --via field) called on the receiver expression recv
-func (g *fnGen) viaOfCallee(call *ast.CallExpr, c *fnInfo) string {
+// method of a struct with a --via field), and how the instance is stored back
+// when the callee modifies it (nil: the argument is a variable, rebound by the
+// pattern).  The instance is: the via parameter of this function; this
+// function's receiver; or the one field of this function's receiver that points
+// to a struct of that type (the cache that owns the map).
+func (g *fnGen) viaOfCallee(call *ast.CallExpr, c *fnInfo) (string, func(v string) []string) {
 	if g.fi.via {
-		return g.viaName
+		return g.viaName, nil
 	}
 	n := g.t.structOf(c.recv.Type())
 	vf := g.t.via[n.Origin().Obj().Name()]
 	st := n.Origin().Underlying().(*types.Struct)
 	for i := 0; i < st.NumFields(); i++ {
-		if st.Field(i).Name() == vf {
-			if r := g.viaRecv(st.Field(i).Type()); r != "" {
-				return r
+		if st.Field(i).Name() != vf {
+			continue
+		}
+		if r := g.viaRecv(st.Field(i).Type()); r != "" {
+			return r, nil
+		}
+		target := g.t.structOf(st.Field(i).Type())
+		if g.fi.recv == nil || target == nil {
+			break
+		}
+		rn := g.t.structOf(g.fi.recv.Type())
+		if rn == nil {
+			break
+		}
+		rs := rn.Origin().Underlying().(*types.Struct)
+		si := g.t.structInfoOf(call, rn)
+		found := ""
+		for j := 0; j < rs.NumFields(); j++ {
+			if fn := g.t.structOf(rs.Field(j).Type()); fn != nil && fn.Origin().Obj() == target.Origin().Obj() && si.has(rs.Field(j).Name()) {
+				if found != "" {
+					found = ""
+					break
+				}
+				found = rs.Field(j).Name()
+			}
+		}
+		if found != "" {
+			read := "(" + si.name + "_" + found + " " + g.recvName + ")"
+			fld := found
+			return read, func(v string) []string {
+				return []string{"let " + g.recvName + " := set_" + si.name + "_" + fld + " " + g.recvName + " " + paren(v) + " in"}
 			}
 		}
 	}
-	g.failf(call, "call of %s, whose struct has a --via field, outside the methods of that struct and of the struct the field points to", c.name)
-	return ""
+	g.failf(call, "call of %s, whose struct has a --via field, outside the methods of that struct, of the struct the field points to, and of a struct that owns one such struct", c.name)
+	return "", nil
 }
 
 // ---------------------------------------------------------------------------
@@ -379,7 +440,7 @@ func (g *fnGen) assigned(lo, hi token.Pos, nodes ...ast.Node) []svar {
 			g.failf(at, "assignment to the package-level variable %s", v.Name())
 		}
 		seen[v] = true
-		out = append(out, svar{coqIdent(v.Name()), g.t.coqType(at, v.Type()), v.Pos()})
+		out = append(out, svar{g.varName(v), g.t.coqType(at, v.Type()), v.Pos()})
 	}
 	viaSeen := false
 	addVia := func() {
@@ -505,8 +566,8 @@ func (g *fnGen) captured(lo, hi token.Pos, skip []svar, nodes ...ast.Node) []sva
 				return true
 			}
 			seen[v] = true
-			if !sk[coqIdent(v.Name())] {
-				out = append(out, svar{coqIdent(v.Name()), g.t.coqType(id, v.Type()), v.Pos()})
+			if !sk[g.varName(v)] {
+				out = append(out, svar{g.varName(v), g.t.coqType(id, v.Type()), v.Pos()})
 			}
 			return true
 		})
@@ -692,7 +753,7 @@ func (g *fnGen) block(list []ast.Stmt, k kctx) []string {
 				}
 				name := "_"
 				if id.Name != "_" {
-					name = coqIdent(id.Name)
+					name = g.idName(id)
 				}
 				out = append(out, emitPre(p, []string{"let " + name + " := " + v + " in"})...)
 			}
@@ -703,8 +764,13 @@ func (g *fnGen) block(list []ast.Stmt, k kctx) []string {
 		// the function body: it runs before every return that follows (a panic ends
 		// the run: GoPanic carries no state, so what the deferred call would do then
 		// is not observable)
-		if !k.top || g.deferred != nil {
-			g.failf(s, "defer (only one, at the top level of the function body)")
+		if !k.top {
+			g.failf(s, "defer (only at the top level of the function body)")
+		}
+		switch libName(g.fi.pk, s.Call) {
+		case "(*sync.Mutex).Unlock", "(*sync.RWMutex).Unlock", "(*sync.RWMutex).RUnlock":
+			// sequential code: a deferred mutex release is a no-op
+			return g.block(rest, k)
 		}
 		c := g.t.calleeOf(g.fi.pk, s.Call)
 		if c == nil || c.errCtor || len(s.Call.Args) != 0 {
@@ -716,20 +782,35 @@ func (g *fnGen) block(list []ast.Stmt, k kctx) []string {
 			g.failf(s, "defer of a method call on something that is not a variable")
 		}
 		for _, r := range rest {
-			if _, isFor := r.(*ast.ForStmt); isFor {
-				g.failf(s, "defer before a loop")
-			}
-			if _, isFor := r.(*ast.RangeStmt); isFor {
-				g.failf(s, "defer before a loop")
+			switch r.(type) {
+			case *ast.ForStmt, *ast.RangeStmt:
+				if hasReturn(r) {
+					g.failf(s, "defer before a loop that returns")
+				}
 			}
 		}
-		g.deferred = s.Call
+		g.deferred = append(g.deferred, s.Call)
 		out := g.block(rest, k)
 		return out
 	case *ast.ExprStmt:
+		if u, ok := ast.Unparen(s.X).(*ast.UnaryExpr); ok && u.Op == token.ARROW && g.t.chans {
+			// <-ch: a receive whose value is dropped
+			var p []binding
+			c := g.expr(u.X, &p)
+			p = append(p, binding{pat: "_", rhs: "chan_recv " + paren(c)})
+			return append(emitPre(p, nil), g.block(rest, k)...)
+		}
 		call, ok := ast.Unparen(s.X).(*ast.CallExpr)
 		if !ok {
 			g.failf(s, "expression statement that is not a call")
+		}
+		if id, ok := ast.Unparen(call.Fun).(*ast.Ident); ok && id.Name == "close" && g.t.chans {
+			if _, isB := g.info.Uses[id].(*types.Builtin); isB {
+				var p []binding
+				c := g.expr(call.Args[0], &p)
+				p = append(p, binding{pat: "_", rhs: "chan_close " + paren(c)})
+				return append(emitPre(p, nil), g.block(rest, k)...)
+			}
 		}
 		if id, ok := ast.Unparen(call.Fun).(*ast.Ident); ok {
 			if _, isB := g.info.Uses[id].(*types.Builtin); isB && id.Name == "panic" {
@@ -791,8 +872,10 @@ func (g *fnGen) block(list []ast.Stmt, k kctx) []string {
 
 // runDeferred: the deferred call as a statement
 func (g *fnGen) runDeferred(p *[]binding) {
-	if !g.callStmt(g.deferred, p, "_") {
-		g.failf(g.deferred, "deferred call")
+	for i := len(g.deferred) - 1; i >= 0; i-- {
+		if !g.callStmt(g.deferred[i], p, "_") {
+			g.failf(g.deferred[i], "deferred call")
+		}
 	}
 }
 
@@ -1059,7 +1142,7 @@ func (g *fnGen) loop(node ast.Stmt, cond ast.Expr, post ast.Stmt, body *ast.Bloc
 		rngSlice = fmt.Sprintf("rng_%d", myN)
 		pre = emitPre(p, []string{"let " + rngSlice + " := " + x + " in"})
 		if id, ok := rng.Key.(*ast.Ident); ok && id.Name != "_" {
-			rngKey = coqIdent(id.Name)
+			rngKey = g.idName(id)
 		} else {
 			rngKey = fmt.Sprintf("rng_%d_i", myN)
 		}
@@ -1067,7 +1150,7 @@ func (g *fnGen) loop(node ast.Stmt, cond ast.Expr, post ast.Stmt, body *ast.Bloc
 			if id, ok := rng.Value.(*ast.Ident); !ok {
 				g.failf(rng, "range value that is not an identifier")
 			} else if id.Name != "_" {
-				rngVal = coqIdent(id.Name)
+				rngVal = g.idName(id)
 			}
 		}
 		for _, v := range state {
@@ -1139,7 +1222,19 @@ func (g *fnGen) loop(node ast.Stmt, cond ast.Expr, post ast.Stmt, body *ast.Bloc
 		bl = append(bl, ") else (", "  ret (Done "+paren(fallV())+")", ")")
 	} else if cond != nil {
 		var p []binding
-		c := g.expr(cond, &p)
+		var c string
+		if call, ok := ast.Unparen(cond).(*ast.CallExpr); ok {
+			if cal := g.t.calleeOf(g.fi.pk, call); cal != nil && !cal.errCtor && (cal.mutates || cal.mutVia) {
+				// for x.M() { .. } with M modifying its receiver: the call as a statement, then the test
+				c = g.fresh()
+				if !g.callStmt(call, &p, c) {
+					g.failf(cond, "loop condition")
+				}
+			}
+		}
+		if c == "" {
+			c = g.expr(cond, &p)
+		}
 		bl = append(bl, emitPre(p, nil)...)
 		bl = append(bl, "if "+c+" then (")
 		bl = append(bl, indent(inner)...)
@@ -1237,7 +1332,7 @@ func (g *fnGen) defaultFuel(node ast.Node, cond, post ast.Node, body *ast.BlockS
 			switch x := e.(type) {
 			case *ast.Ident:
 				if v, ok := g.info.Uses[x].(*types.Var); ok && !v.IsField() && (isSliceType(v.Type()) || g.t.devirtSlice(v.Type()) != nil) && !(v.Pos() >= lo && v.Pos() < hi) {
-					add(coqIdent(v.Name()))
+					add(g.varName(v))
 				}
 			case *ast.SelectorExpr:
 				if sel, ok := g.info.Selections[x]; ok && sel.Kind() == types.FieldVal && isSliceType(sel.Type()) {
@@ -1280,7 +1375,7 @@ func (g *fnGen) assignTo(lhs ast.Expr, v string) []string {
 	switch x := ast.Unparen(lhs).(type) {
 	case *ast.StarExpr:
 		if id, ok := ast.Unparen(x.X).(*ast.Ident); ok && ptrSliceOf(g.typeOf(x.X)) {
-			return []string{"let " + coqIdent(id.Name) + " := " + v + " in"}
+			return []string{"let " + g.idName(id) + " := " + v + " in"}
 		}
 		g.failf(lhs, "assignment through a pointer")
 	case *ast.Ident:
@@ -1290,7 +1385,7 @@ func (g *fnGen) assignTo(lhs ast.Expr, v string) []string {
 		if _, ok := g.info.ObjectOf(x).(*types.Var); !ok {
 			g.failf(lhs, "assignment to %s", x.Name)
 		}
-		return []string{"let " + coqIdent(x.Name) + " := " + v + " in"}
+		return []string{"let " + g.idName(x) + " := " + v + " in"}
 	case *ast.IndexExpr:
 		var p []binding
 		if isMapType(g.typeOf(x.X)) {
@@ -1304,7 +1399,7 @@ func (g *fnGen) assignTo(lhs ast.Expr, v string) []string {
 			return g.assignTo(x.X, "mapset "+paren(kk)+" "+paren(v)+" "+paren(m))
 		}
 		s := g.expr(x.X, &p)
-		if !isSliceType(g.typeOf(x.X)) {
+		if !isSliceType(g.typeOf(x.X)) && !g.t.arrayFieldSel(g.fi.pk, x.X) {
 			g.failf(lhs, "assignment to an element of %s", g.typeOf(x.X))
 		}
 		i := g.expr(x.Index, &p)
@@ -1351,7 +1446,7 @@ func (g *fnGen) assignTo(lhs ast.Expr, v string) []string {
 func (g *fnGen) lvalue(lhs ast.Expr, p *[]binding) func(v string) []string {
 	switch x := ast.Unparen(lhs).(type) {
 	case *ast.IndexExpr:
-		if !isSliceType(g.typeOf(x.X)) {
+		if !isSliceType(g.typeOf(x.X)) && !g.t.arrayFieldSel(g.fi.pk, x.X) {
 			g.failf(lhs, "assignment to an element of %s", g.typeOf(x.X))
 		}
 		s := g.expr(x.X, p)
@@ -1400,7 +1495,7 @@ func (g *fnGen) assign(s *ast.AssignStmt) []string {
 			if id, ok := ast.Unparen(s.Lhs[0]).(*ast.Ident); ok {
 				name := "_"
 				if id.Name != "_" {
-					name = coqIdent(id.Name)
+					name = g.idName(id)
 				}
 				if g.callStmt(call, &p, name) {
 					return emitPre(p, nil)
@@ -1433,7 +1528,7 @@ func (g *fnGen) assign(s *ast.AssignStmt) []string {
 				if id.Name == "_" {
 					pats = append(pats, "_")
 				} else {
-					pats = append(pats, coqIdent(id.Name))
+					pats = append(pats, g.idName(id))
 				}
 			}
 			var p []binding
@@ -1453,7 +1548,7 @@ func (g *fnGen) assign(s *ast.AssignStmt) []string {
 				if id.Name == "_" {
 					pats = append(pats, "_")
 				} else {
-					pats = append(pats, coqIdent(id.Name))
+					pats = append(pats, g.idName(id))
 				}
 			}
 			var p []binding
@@ -1473,7 +1568,7 @@ func (g *fnGen) assign(s *ast.AssignStmt) []string {
 			case ok && id.Name == "_":
 				pats = append(pats, "_")
 			case ok:
-				pats = append(pats, coqIdent(id.Name))
+				pats = append(pats, g.idName(id))
 			default:
 				// a field or an element: through a temporary
 				tmp := g.fresh()
@@ -1525,7 +1620,7 @@ func (g *fnGen) assign(s *ast.AssignStmt) []string {
 			if id.Name == "_" {
 				pats = append(pats, "_")
 			} else {
-				pats = append(pats, coqIdent(id.Name))
+				pats = append(pats, g.idName(id))
 			}
 		}
 		return emitPre(p, []string{"let '" + tuple(pats) + " := " + tuple(vals) + " in"})
@@ -1575,7 +1670,7 @@ func (g *fnGen) callStmt(call *ast.CallExpr, p *[]binding, pats ...string) bool 
 		if c.mutates {
 			sel := ast.Unparen(call.Fun).(*ast.SelectorExpr)
 			if id, ok := ast.Unparen(sel.X).(*ast.Ident); ok {
-				pats = append([]string{coqIdent(id.Name)}, pats...)
+				pats = append([]string{g.idName(id)}, pats...)
 			} else if vs, ok := ast.Unparen(sel.X).(*ast.SelectorExpr); ok && g.t.isViaSel(g.fi.pk, vs) {
 				pats = append([]string{g.viaVar(call, vs)}, pats...)
 			} else if rootIdent(g.info, sel.X) != nil {
@@ -1588,7 +1683,14 @@ func (g *fnGen) callStmt(call *ast.CallExpr, p *[]binding, pats ...string) bool 
 			}
 		}
 		if c.mutVia {
-			pats = append([]string{g.viaOfCallee(call, c)}, pats...)
+			read, write := g.viaOfCallee(call, c)
+			if write == nil {
+				pats = append([]string{read}, pats...)
+			} else {
+				tmp := g.fresh()
+				pats = append([]string{tmp}, pats...)
+				writeBack = append(writeBack, write(tmp)...)
+			}
 		}
 		term := g.userCall(call, c, p)
 		pat := tuple(pats)
@@ -1690,7 +1792,7 @@ func (g *fnGen) expr(e ast.Expr, p *[]binding) string {
 				}
 				g.failf(e, "package-level variable %s", x.Name)
 			}
-			return coqIdent(x.Name)
+			return g.idName(x)
 		case *types.Nil:
 			g.failf(e, "nil in a position where its type is not known to the translator")
 		}
@@ -1702,6 +1804,9 @@ func (g *fnGen) expr(e ast.Expr, p *[]binding) string {
 			}
 			if g.t.isViaSel(g.fi.pk, x) {
 				return g.viaVar(e, x)
+			}
+			if pn := g.t.packedOf(g.typeOf(x.X)); pn != nil {
+				return "(" + g.t.packedParam(pn, x.Sel.Name).name + " " + paren(g.expr(x.X, p)) + ")"
 			}
 			if on := g.t.objectOf(g.typeOf(x.X)); on != nil {
 				k, fty := g.t.objField(e, on, x.Sel.Name)
@@ -1783,7 +1888,7 @@ func (g *fnGen) expr(e ast.Expr, p *[]binding) string {
 			kk := g.expr(x.Index, p)
 			return "(fst (mapget " + paren(kk) + " " + paren(m) + "))"
 		}
-		if !isSliceType(tx) && !isStringType(tx) {
+		if !isSliceType(tx) && !isStringType(tx) && !g.t.arrayFieldSel(g.fi.pk, x.X) {
 			g.failf(e, "index of %s", tx)
 		}
 		s := g.expr(x.X, p)
@@ -1795,7 +1900,7 @@ func (g *fnGen) expr(e ast.Expr, p *[]binding) string {
 		if x.Slice3 {
 			g.failf(e, "3-index slice")
 		}
-		if !isSliceType(g.typeOf(x.X)) {
+		if !isSliceType(g.typeOf(x.X)) && !g.t.arrayFieldSel(g.fi.pk, x.X) {
 			g.failf(e, "slice expression on %s", g.typeOf(x.X))
 		}
 		s := g.expr(x.X, p)
@@ -1850,6 +1955,42 @@ func (g *fnGen) objComposite(cl *ast.CompositeLit, on *types.Named, p *[]binding
 }
 
 func (g *fnGen) composite(cl *ast.CompositeLit, p *[]binding) string {
+	if pn := g.t.packedOf(g.typeOf(cl)); pn != nil {
+		// a packed struct value: the pure parameter S_mk applied to the fields in declaration order
+		st := pn.Underlying().(*types.Struct)
+		vals := make([]string, st.NumFields())
+		for i := range vals {
+			vals[i] = g.t.zeroOf(cl, st.Field(i).Type())
+		}
+		for i, el := range cl.Elts {
+			if kv, ok := el.(*ast.KeyValueExpr); ok {
+				id, ok := kv.Key.(*ast.Ident)
+				if !ok {
+					g.failf(el, "composite literal key")
+				}
+				found := false
+				for j := 0; j < st.NumFields(); j++ {
+					if st.Field(j).Name() == id.Name {
+						vals[j] = g.exprAs(kv.Value, st.Field(j).Type(), p)
+						found = true
+					}
+				}
+				if !found {
+					g.failf(el, "no field %s", id.Name)
+				}
+			} else {
+				if i >= len(vals) {
+					g.failf(el, "too many values")
+				}
+				vals[i] = g.exprAs(el, st.Field(i).Type(), p)
+			}
+		}
+		parts := []string{g.t.packedParam(pn, "").name}
+		for _, v := range vals {
+			parts = append(parts, paren(v))
+		}
+		return "(" + strings.Join(parts, " ") + ")"
+	}
 	if g.t.opaqueName(g.typeOf(cl)) != "" {
 		// a value of an opaque library struct (sync.Pool{New: ...}): a handle; what
 		// the literal says (the New function) is part of the assumptions on the
@@ -2016,7 +2157,7 @@ func (g *fnGen) binary(x *ast.BinaryExpr, p *[]binding) string {
 			if isNil(x.X) {
 				other = x.Y
 			}
-			if g.t.objectOf(g.typeOf(other)) != nil && (x.Op == token.EQL || x.Op == token.NEQ) {
+			if (g.t.objectOf(g.typeOf(other)) != nil || g.t.opaqueName(g.typeOf(other)) != "") && (x.Op == token.EQL || x.Op == token.NEQ) {
 				// an object pointer: nil is 0
 				t := "(" + paren(g.expr(other, p)) + " =? 0)"
 				if x.Op == token.NEQ {
@@ -2115,7 +2256,8 @@ func (g *fnGen) userCall(call *ast.CallExpr, c *fnInfo, p *[]binding) string {
 			g.failf(call, "method expression")
 		}
 		if c.via {
-			parts = append(parts, g.viaOfCallee(call, c))
+			read, _ := g.viaOfCallee(call, c)
+			parts = append(parts, read)
 		}
 		parts = append(parts, paren(g.expr(sel.X, p)))
 	}
@@ -2179,6 +2321,9 @@ func (g *fnGen) effectCall(call *ast.CallExpr, p *[]binding) (string, bool) {
 				el := g.exprAs(call.Args[1], g.typeOf(call.Args[0]).Underlying().(*types.Slice).Elem(), p)
 				return "goappend " + paren(sl) + " " + paren(el), true
 			case "make":
+				if _, isChan := g.typeOf(call).Underlying().(*types.Chan); isChan && len(call.Args) == 1 && g.t.chans {
+					return "chan_make", true
+				}
 				if len(call.Args) != 2 || !isSliceType(g.typeOf(call.Args[0])) {
 					g.failf(call, "make other than make([]T, n)")
 				}
@@ -2241,6 +2386,11 @@ func (g *fnGen) call(call *ast.CallExpr, p *[]binding) string {
 				}
 				return "(s_" + id.Name + " " + paren(g.expr(call.Args[0], p)) + ")"
 			case "copy", "make", "append":
+				if _, isChan := g.typeOf(call).Underlying().(*types.Chan); id.Name == "make" && len(call.Args) == 1 && isChan && g.t.chans {
+					tmp := g.fresh()
+					*p = append(*p, binding{pat: tmp, rhs: "chan_make"})
+					return tmp
+				}
 				if id.Name == "make" && len(call.Args) == 1 && isMapType(g.typeOf(call)) {
 					g.t.coqType(call, g.typeOf(call))
 					return "mapnew"
